@@ -75,7 +75,7 @@ func (c *concurrentStreamMapperProvider[SRC, TGT]) Open(ctx context.Context, src
 					} else {
 						// Run the mapper function concurrently
 
-						tgt, err := c.mapper(ctx, entry.Value)
+						tgt, err := callRecovering(ctx, c.mapper, entry.Value)
 						if err != nil {
 							select {
 							// Wrapping errors, e.g. we don't want EOF accidentally returned from here
@@ -114,7 +114,7 @@ func (c *concurrentStreamMapperProvider[SRC, TGT]) Open(ctx context.Context, src
 				return
 			default:
 				// Read from the source stream
-				v, err := srcProviderFunc(ctx)
+				v, err := pullRecovering(ctx, srcProviderFunc)
 				if err != nil {
 					if err == io.EOF {
 						// If the source stream is done, we need to deplete the buffer and only then return the EOF
@@ -163,4 +163,33 @@ func (c *concurrentStreamMapperProvider[SRC, TGT]) Emit(ctx context.Context, _ P
 		}
 		return r.Unpack()
 	}
+}
+
+// recoveredPanicToError converts a recovered panic value to an error, the same way the terminal operations do
+func recoveredPanicToError(rvr any) error {
+	if asErr, ok := rvr.(error); ok {
+		return fmt.Errorf("stream recovered error: %w", asErr)
+	}
+	return fmt.Errorf("stream recovered error value: %v", rvr)
+}
+
+// callRecovering calls f on a library goroutine, turning a panic into an error so that it reaches the
+// terminal operation as an error instead of crashing the process
+func callRecovering[S any, T any](ctx context.Context, f func(context.Context, S) (T, error), v S) (ret T, err error) {
+	defer func() {
+		if rvr := recover(); rvr != nil {
+			ret, err = util.DefaultValue[T](), recoveredPanicToError(rvr)
+		}
+	}()
+	return f(ctx, v)
+}
+
+// pullRecovering pulls the next item from a provider on a library goroutine, turning a panic into an error
+func pullRecovering[T any](ctx context.Context, provider ProviderFunc[T]) (ret T, err error) {
+	defer func() {
+		if rvr := recover(); rvr != nil {
+			ret, err = util.DefaultValue[T](), recoveredPanicToError(rvr)
+		}
+	}()
+	return provider(ctx)
 }
